@@ -9,8 +9,8 @@
     reservation pod behind the binder's back ([EvResGone]).  [quiet_step e ord dp]
     is a step without faults (its map orders and device-plugin answers are
     still arbitrary). *)
-From Coq Require Import List PArith.
-From KaiV Require Model.GroupMutex Proofs.GroupMutex.
+From Coq Require Import List PArith Permutation.
+From KaiV Require Model.GroupMutex Proofs.GroupMutex Model.Sections Proofs.Sections Proofs.SectionsGlobal Proofs.ReservationCommute Run.C17.
 From KaiV Require Import Model.Reservation Proofs.Reservation.
 Import ListNotations.
 
@@ -32,6 +32,124 @@ Theorem group_mutex_exclusion :
         /\ Model.GroupMutex.gm_locked (Model.GroupMutex.c_gm c) = []).
 Proof. exact Proofs.GroupMutex.group_mutex_exclusion_proof. Qed.
 Print Assumptions group_mutex_exclusion.
+
+(** (1') What the lock buys: ATOMICITY of the sections.  Model/Reservation.v runs
+    every critical section of a group as one atomic piece, and the race check
+    (Run/C17.v, [race_agrees]) compares a real interleaving of two operations
+    with the two sequential orders.  Both are justified by this statement about
+    Model/Sections.v -- the lock protocol of (1), unchanged, with a BODY between
+    acquire and release that is executed one atomic action (one API call) per
+    scheduler tick; a body is any resumable program (local state lives in its
+    continuations); [run_prog] is the body run without interruption; the shared
+    state has one component per group and a section works on its group's.
+    For any number of threads, any sections, any bodies and EVERY schedule of
+    lock steps and body actions:
+      - never two threads inside the section of one group;
+      - at every moment component x is explained by the sections that took x's
+        lock so far, in that order, each run uninterrupted: it IS that state if
+        nobody is inside, and finishing the current body leads to it otherwise;
+        no section is lost or run twice;
+      - when every thread is done, every component is the result of SOME
+        sequential order of all the sections on its group.
+    Sections of different groups are independent here by construction (disjoint
+    components); [C17_interleavings_serialise] below replaces that by commuting
+    actions on one shared state. *)
+Theorem C17_interleavings_serialise_components :
+  forall (T : Type) (sh0 : Model.GroupMutex.group -> T)
+         (progs : list (list (Model.GroupMutex.group * Model.Sections.prog T))) (sched : list nat),
+    let c := Model.Sections.srun sched (Model.Sections.sinit progs sh0) in
+    (forall x i j ti tj, i <> j ->
+        nth_error (Model.Sections.sc_thr c) i = Some ti -> nth_error (Model.Sections.sc_thr c) j = Some tj ->
+        Model.GroupMutex.in_cs x (Model.Sections.st_thr ti) -> Model.GroupMutex.in_cs x (Model.Sections.st_thr tj) -> False)
+    /\ (forall x, exists order,
+           Permutation (order ++ Proofs.Sections.pending x (Model.Sections.sc_thr c)) (Model.Sections.bodies_on x progs)
+           /\ ((forall t, In t (Model.Sections.sc_thr c) -> ~ Model.GroupMutex.in_cs x (Model.Sections.st_thr t)) ->
+               Model.Sections.sc_sh c x = Model.Sections.serial order (sh0 x))
+           /\ (forall i t, nth_error (Model.Sections.sc_thr c) i = Some t ->
+                           Model.GroupMutex.in_cs x (Model.Sections.st_thr t) ->
+                           Model.Sections.run_prog (Model.Sections.st_cur t) (Model.Sections.sc_sh c x)
+                           = Model.Sections.serial order (sh0 x)))
+    /\ ((forall t, In t (Model.Sections.sc_thr c) -> Model.Sections.sdone t) ->
+        forall x, exists order, Permutation order (Model.Sections.bodies_on x progs)
+                                /\ Model.Sections.sc_sh c x = Model.Sections.serial order (sh0 x)).
+Proof. exact (fun T => @Proofs.Sections.sections_serialise_proof T). Qed.
+Print Assumptions C17_interleavings_serialise_components.
+
+(** The same over ONE shared state -- the real store is not a family of
+    per-group components: consumer pods are shared.  Bodies are plain lists of
+    actions, [gstep] lets an action of a section touch the whole state, and
+    instead of disjointness the hypothesis is that actions of sections on
+    DIFFERENT groups commute.  Any number of threads, any sections, every
+    schedule: when every thread is done the state is the result of SOME
+    sequential order of all the sections, each run whole and uninterrupted.
+    (Proof: the threads inside, taken in the order in which they entered, can
+    finish their bodies one after the other; an action is moved to the front
+    past the remaining actions of earlier entrants, which by mutual exclusion
+    belong to other groups.)  Not covered: bodies with local state over one
+    shared state (that is [C17_interleavings_serialise_components], over
+    components). *)
+Theorem C17_interleavings_serialise :
+  forall (T : Type) (progs : list (list (Model.GroupMutex.group * Model.Sections.body T))) (s0 : T),
+    (forall x bx y by_,
+        In (x, bx) (concat progs) -> In (y, by_) (concat progs) -> x <> y ->
+        forall f g, In f bx -> In g by_ -> forall s, f (g s) = g (f s)) ->
+    forall sched : list nat,
+      let c := Model.Sections.grun sched (Model.Sections.ginit progs s0) in
+      (forall t, In t (Model.Sections.gc_thr c) -> Model.Sections.ldone t) ->
+      exists order,
+        Permutation order (map snd (concat progs))
+        /\ Model.Sections.gc_st c = Model.Sections.serial_bodies order s0.
+Proof. exact (fun T => @Proofs.SectionsGlobal.global_serialise_proof T). Qed.
+Print Assumptions C17_interleavings_serialise.
+
+(** The race oracle.  Two operations on the SAME group -- the operations of
+    Run/C17.v: ReserveGpuDevice, SyncForGpuGroup or any event, with any oracles --
+    and whatever atomic actions (API calls, with any local state in between) the
+    code performs for them inside the lock: if, uninterrupted, they do what the
+    model's atomic [exec_rop] does, every interleaving the lock allows ends in
+    the state the model reaches by a, then b, or by b, then a.  This is what
+    [race_agrees] of Run/C17.v compares the real final store with ([seq2]).
+    On DIFFERENT groups (and disjoint components) each component is what its own
+    operation makes of it. *)
+Theorem C17_race_linearizable :
+  forall (x : Model.GroupMutex.group) (a b : Run.C17.rstep) (pA pB : Model.Sections.prog pstate)
+         (s0 : Model.GroupMutex.group -> pstate) (sched : list nat),
+    (forall s, Model.Sections.run_prog pA s = persist (snd (Run.C17.exec_rop a s))) ->
+    (forall s, Model.Sections.run_prog pB s = persist (snd (Run.C17.exec_rop b s))) ->
+    let c := Model.Sections.srun sched (Model.Sections.sinit [[(x, pA)]; [(x, pB)]] s0) in
+    (forall t, In t (Model.Sections.sc_thr c) -> Model.Sections.sdone t) ->
+    Model.Sections.sc_sh c x = persist (snd (Run.C17.exec_rop b (persist (snd (Run.C17.exec_rop a (s0 x))))))
+    \/ Model.Sections.sc_sh c x = persist (snd (Run.C17.exec_rop a (persist (snd (Run.C17.exec_rop b (s0 x)))))).
+Proof.
+  exact (fun x a b => Proofs.Sections.two_functions_linearizable x
+                        (fun s => persist (snd (Run.C17.exec_rop a s)))
+                        (fun s => persist (snd (Run.C17.exec_rop b s)))).
+Qed.
+Print Assumptions C17_race_linearizable.
+
+Theorem C17_race_different_groups_independent :
+  forall (T : Type) (x y : Model.GroupMutex.group) (pA pB : Model.Sections.prog T)
+         (sh0 : Model.GroupMutex.group -> T) (sched : list nat),
+    x <> y ->
+    let c := Model.Sections.srun sched (Model.Sections.sinit [[(x, pA)]; [(y, pB)]] sh0) in
+    (forall t, In t (Model.Sections.sc_thr c) -> Model.Sections.sdone t) ->
+    Model.Sections.sc_sh c x = Model.Sections.run_prog pA (sh0 x)
+    /\ Model.Sections.sc_sh c y = Model.Sections.run_prog pB (sh0 y).
+Proof. exact (fun T => @Proofs.Sections.two_sections_independent T). Qed.
+Print Assumptions C17_race_different_groups_independent.
+
+(** The hypothesis of [C17_interleavings_serialise] is a hypothesis: on the store
+    of Model/Reservation.v two syncs of different groups do NOT commute in every
+    state -- a sync of g1 that deletes a
+    running pod without reservation takes away the last live consumer of g2
+    (the witness state has a running pod attached to an unreserved group, which
+    no tamper-free history reaches, (2c)).  So the race check never assumes an
+    order for operations on different groups: either order is accepted. *)
+Definition C17_syncs_of_different_groups_commute : Prop :=
+  forall s : list pod, Proofs.ReservationCommute.syncs_commute_on s.
+Theorem C17_syncs_of_different_groups_commute_refuted : ~ C17_syncs_of_different_groups_commute.
+Proof. exact Proofs.ReservationCommute.syncs_commute_refuted. Qed.
+Print Assumptions C17_syncs_of_different_groups_commute_refuted.
 
 (** (2a) At most one reservation pod per group -- after EVERY history, outside
     deletions included. *)
@@ -162,7 +280,13 @@ Print Assumptions C17_iff_after_sync_any_history_refuted.
     single- and a multi-fraction consumer sharing a group reaches a state with
     two reservation pods and a live bound consumer that holds an index
     (the hypotheses of (2b) are met); the lock model has a schedule on which two
-    threads wait while a third is inside. *)
+    threads wait while a third is inside; the machine with bodies has a schedule
+    on which a thread is refused the lock while the other one is half-way
+    through a two-action body, and the final state is that of A;B and not that
+    of B;A; every operation of the model has a body that meets the hypothesis of
+    [C17_race_linearizable]; the one-shared-state machine has commuting sections
+    of two groups that are inside at the same time and interleave action by
+    action. *)
 Theorem C17_nonvacuous :
   tamper_free nv_history
   /\ (let s := ps_store (exec nv_history (init_state nv_pods)) in
@@ -172,8 +296,29 @@ Theorem C17_nonvacuous :
       /\ length (res_of 1%positive s) = 1 /\ length (res_of 2%positive s) = 1
       /\ ps_next (exec nv_history (init_state nv_pods)) = 5%positive)
   /\ Proofs.GroupMutex.count_in_cs 1%positive
-       (Model.GroupMutex.run Proofs.GroupMutex.ex_sched1 (Model.GroupMutex.init Proofs.GroupMutex.ex_progs)) = 1.
+       (Model.GroupMutex.run Proofs.GroupMutex.ex_sched1 (Model.GroupMutex.init Proofs.GroupMutex.ex_progs)) = 1
+  /\ (map (fun t => Model.GroupMutex.in_cs_b 1%positive (Model.Sections.st_thr t))
+          (Model.Sections.sc_thr (Model.Sections.srun Proofs.Sections.ex_sched_mid Proofs.Sections.ex_two)) = [true; false]
+      /\ Model.Sections.sc_sh (Model.Sections.srun Proofs.Sections.ex_sched_mid Proofs.Sections.ex_two) 1%positive = 1
+      /\ forallb Proofs.Sections.sdone_b
+                 (Model.Sections.sc_thr (Model.Sections.srun Proofs.Sections.ex_sched_all Proofs.Sections.ex_two)) = true
+      /\ Model.Sections.sc_sh (Model.Sections.srun Proofs.Sections.ex_sched_all Proofs.Sections.ex_two) 1%positive = 12
+      /\ Model.Sections.run_prog Proofs.Sections.ex_pA (Model.Sections.run_prog Proofs.Sections.ex_pB 0) = 22)
+  /\ (forall (a : Run.C17.rstep) s,
+        Model.Sections.run_prog (Proofs.Sections.atomic_body (fun s => persist (snd (Run.C17.exec_rop a s)))) s
+        = persist (snd (Run.C17.exec_rop a s)))
+  /\ ((forall x bx y by_, In (x, bx) (concat Proofs.SectionsGlobal.gx_progs) ->
+                          In (y, by_) (concat Proofs.SectionsGlobal.gx_progs) -> x <> y ->
+                          forall f g, In f bx -> In g by_ -> forall s, f (g s) = g (f s))
+      /\ Model.Sections.gc_hold (Model.Sections.grun [0; 0; 1; 1; 0; 1]
+                                   (Model.Sections.ginit Proofs.SectionsGlobal.gx_progs (0, 0))) = [0; 1]
+      /\ Model.Sections.gc_st (Model.Sections.grun Proofs.SectionsGlobal.gx_sched
+                                 (Model.Sections.ginit Proofs.SectionsGlobal.gx_progs (0, 0))) = (2, 15)).
 Proof.
-  split; [exact nv_tamper_free|]. split; [exact nv_reaches|]. exact (proj1 Proofs.GroupMutex.ex_contention).
+  split; [exact nv_tamper_free|]. split; [exact nv_reaches|]. split; [exact (proj1 Proofs.GroupMutex.ex_contention)|].
+  split; [destruct Proofs.Sections.ex_two_blocked as [H1 [_ [H3 [H4 [H5 [_ H7]]]]]]; repeat split; assumption|].
+  split; [intros a s; reflexivity|].
+  destruct Proofs.SectionsGlobal.gx_interleaved as [_ [G2 [_ G4]]].
+  split; [exact Proofs.SectionsGlobal.gx_commute|]. split; assumption.
 Qed.
 Print Assumptions C17_nonvacuous.
